@@ -705,14 +705,16 @@ class Taylor3D(object):
         if ashape[1:] != bshape[1:]:
             raise TypeError('Unable to add--not compatible')
         # make c = copy of a
+        # common type of the result, so that accumulation below works whichever operand is complex
+        dtype = np.result_type(alpha, beta, *[apow for (an, almax, apow) in acoeff],
+                               *[bpow for (bn, blmax, bpow) in bcoeff])
         if not inplace:
-            # complex, so that in-place accumulation below works whichever operand is complex
-            c = [(an, almax, alpha * apow.astype(complex)) for (an, almax, apow) in acoeff]
+            c = [(an, almax, (alpha * apow).astype(dtype)) for (an, almax, apow) in acoeff]
         else:
             c = acoeff
         for bn, blmax, bpow in bcoeff:
             # now add it into the list
-            cpow = beta * bpow.astype(complex)
+            cpow = (beta * bpow).astype(dtype)
             matched = False
             for coeffindex, cmatch in enumerate(c):
                 if cmatch[0] == bn:
@@ -730,6 +732,10 @@ class Taylor3D(object):
                 else:
                     # can just append in place: need to be careful, since we have a tuple
                     coeff = cmatch[2]
+                    if coeff.dtype != dtype:
+                        # (in-place sum of a real expansion with a complex one)
+                        coeff = coeff.astype(dtype)
+                        c[coeffindex] = (cmatch[0], clmax0, coeff)
                     coeff[:cls.powlrange[blmax]] += cpow
         c.sort(key=cls.__sortkey)
         return c
